@@ -85,6 +85,11 @@ def gen_var(rng: random.Random, var, tricky_text: bool = False) -> bytes:
         return bytes(rng.randrange(256) for _ in range(var.size))
     if t == T.MVT_VARIABLE:
         maxlen = 255 if var.size == 1 else 600
+        if var.size == 1 and rng.random() < (0.08 if tricky_text else 0.01):
+            # a value that fills, or nearly fills, what its one-byte length prefix can describe
+            n = rng.choice([255, 255, 254, 253])
+            data = (b"n" * (n - 1) + b"\x00") if rng.random() < 0.6 else bytes(rng.randrange(1, 256) for _ in range(n))
+            return struct.pack("<B", n) + data
         if var.probably_text or rng.random() < 0.3:
             data = _text(rng, maxlen)
             if tricky_text and rng.random() < 0.5:
